@@ -9,6 +9,9 @@ action:
   {"a":"file","name":"r1"}                                       file_resource on a scratch file
   {"a":"res","url":"u"}                                          custom resource function
   {"a":"raise"}                                                  body raises ValueError (after what it did so far)
+  {"a":"pause"}                                                  harness hook (another thread makes an unrelated call meanwhile)
+any action may carry "when": "even"|"odd"|"pos" (performed only if x is even / odd / positive); a node may call itself
+with d = -1 when "pos" (recursion that ends at x <= 0).
 Every node returns x + sum of successful sub-results.
 """
 import os
@@ -34,6 +37,10 @@ def _run(name, x, extra_kwargs):
     total = x
     for act in prog["nodes"].get(name, []):
         kind = act["a"]
+        # an action may depend on the argument: the same function version then reaches different functions for different calls
+        when = act.get("when")
+        if (when == "even" and x % 2 != 0) or (when == "odd" and x % 2 != 1) or (when == "pos" and x <= 0):
+            continue
         if kind == "call":
             callee = FUNCS[act["fn"]]
             arg = x + act.get("d", 0)
@@ -65,9 +72,21 @@ def _run(name, x, extra_kwargs):
         elif kind == "res":
             h = vres(act["url"])
             rec["resources"].append(("verif", h.url, h.version))
+        elif kind == "pause":
+            # the harness may use this point to let ANOTHER thread make an unrelated top-level memento call while
+            # this body is still running (that call is not made by this body)
+            hook = STATE.get("pause_hook")
+            if hook is not None:
+                hook()
         elif kind == "raise":
             raise ValueError("node %s fails at x=%s" % (name, x))
     return total
+
+
+@m.memento_function(cluster="c", version="1")
+def tx(x):
+    """unrelated function called from another thread during a pause"""
+    return x
 
 
 @m.memento_function(cluster="c", version="1")
@@ -121,7 +140,7 @@ def take_trace():
     return t
 
 
-def program_strategy(with_ctx=False, max_nodes=7):
+def program_strategy(with_ctx=False, max_nodes=7, argdep=False):
     from hypothesis import strategies as st
 
     ctxs = st.one_of(st.none(), st.none(), st.just({}),
@@ -150,6 +169,16 @@ def program_strategy(with_ctx=False, max_nodes=7):
                     acts.append({"a": "file", "name": draw(st.sampled_from(["r1", "r2", "missing"]))})
                 else:
                     acts.append({"a": "res", "url": draw(st.sampled_from(["u1", "u2"]))})
+            if argdep:
+                for a in acts:
+                    w = draw(st.sampled_from([None, None, None, "even", "odd"]))
+                    if w:
+                        a["when"] = w
+                if draw(st.integers(0, 4)) == 0:
+                    acts.insert(draw(st.integers(0, len(acts))), {"a": "pause"})
+                if draw(st.integers(0, 5)) == 0:
+                    # self-recursion, placed anywhere among the actions
+                    acts.insert(draw(st.integers(0, len(acts))), {"a": "call", "fn": "t%d" % i, "d": -1, "catch": True, "when": "pos"})
             if i > 0 and draw(st.integers(0, 5)) == 0:
                 acts.append({"a": "raise"})
             nodes["t%d" % i] = acts
